@@ -95,6 +95,13 @@ func parseAudioMeta(m *sdp.Format, audio *codec.AudioMeta) {
 			// audio.SetParameterSet(aac.ParameterSetConfig, config)
 			audio.Sps = config
 			_ = aac.MetadataIsReady(audio)
+			// rtpmap 省略声道数时（RFC 4566：省略表示单声道）以 AudioSpecificConfig 的声道配置为准
+			if m.Channels <= 0 {
+				var asc aac.AudioSpecificConfig
+				if err := asc.Decode(config); err == nil && asc.Channels > 0 {
+					audio.Channels = int(asc.Channels)
+				}
+			}
 			break
 		}
 	}
